@@ -151,6 +151,38 @@ def keysNodup (G : List Group) : Bool := decide (G.map (·.1)).Nodup
 def violationsG (multi : List Role) (G : List Group) : List Viol :=
   dedup (G.flatMap fun g => (groupRows g).flatMap (violationsOf multi (groupRows g)))
 
+
+/-! ### lock order (deadlock freedom) -/
+
+/-- Lock-order discipline of one thread w.r.t. a ranking of the locks: every acquisition happens
+    while holding only locks of strictly smaller rank, ranks stay below `B`, and a thread that has
+    finished holds nothing (acquisitions are bracketed by releases). -/
+def Ordered (rank : Lock → Nat) (B : Nat) : List Lock → List Event → Prop
+  | h, [] => h = []
+  | h, Event.acq l :: r => (∀ x, x ∈ h → rank x < rank l) ∧ rank l < B ∧ Ordered rank B (l :: h) r
+  | h, Event.rel l :: r => Ordered rank B (h.erase l) r
+  | h, Event.access _ _ :: r => Ordered rank B h r
+
+/-- The same discipline stated with the extracted edge list: a lock is acquired only while holding
+    locks `x` for which the table records the edge `x → l` ("some role acquires `l` while holding `x`"). -/
+def FollowsOrder (edges : List (Lock × Lock)) : List Lock → List Event → Prop
+  | h, [] => h = []
+  | h, Event.acq l :: r => (∀ x, x ∈ h → (x, l) ∈ edges) ∧ FollowsOrder edges (l :: h) r
+  | h, Event.rel l :: r => FollowsOrder edges (h.erase l) r
+  | h, Event.access _ _ :: r => FollowsOrder edges h r
+
+def rankOf (ranks : List Nat) (l : Lock) : Nat := ranks.getD l 0
+
+/-- decidable acyclicity check of the lock-order graph, by a rank certificate (a topological
+    numbering emitted by the extractor): every edge goes strictly upwards -/
+def lockOrderAcyclic (ranks : List Nat) (edges : List (Lock × Lock)) : Bool :=
+  edges.all fun e => decide (rankOf ranks e.1 < rankOf ranks e.2)
+
+/-- a path in the lock-order graph -/
+inductive OrderPath (edges : List (Lock × Lock)) : Lock → Lock → Prop where
+  | single {a b : Lock} : (a, b) ∈ edges → OrderPath edges a b
+  | cons {a b c : Lock} : (a, b) ∈ edges → OrderPath edges b c → OrderPath edges a c
+
 /-! ### the canonical two-thread program of a pair of rows (used for the counterexamples) -/
 
 def acqs (ls : List Lock) : List Event := ls.map Event.acq
